@@ -36,8 +36,8 @@ CONFS = {
 BCKLIN_CONFS = {
     "euler_b45": ("euler", {}, {"method": "rk45", "atol": TIGHT, "rtol": TIGHT}),
     "rk4_b45": ("rk4", {}, {"method": "rk45", "atol": TIGHT, "rtol": TIGHT}),
-    "rk45loose_b45": ("rk45", {"atol": 1e-3, "rtol": 1e-3}, {"atol": TIGHT, "rtol": TIGHT}),
-    "rk23loose_b45": ("rk23", {"atol": 1e-3, "rtol": 1e-3}, {"method": "rk45", "atol": TIGHT, "rtol": TIGHT}),
+    "rk45loose_b45": ("rk45", {"atol": 1.0, "rtol": 1.0}, {"atol": TIGHT, "rtol": TIGHT}),
+    "rk23loose_b45": ("rk23", {"atol": 3e-2, "rtol": 3e-2}, {"method": "rk45", "atol": TIGHT, "rtol": TIGHT}),
 }
 
 # Tolerances (relative, see _kind_errors).  Calibration on the repaired tree, seeds 0..3 and 7, both tiers (largest error seen):
@@ -66,26 +66,37 @@ def _theta_names(desc):
     return names
 
 
-LEVEL_TEXT = ("Held on every generated case of the run: 4 ODE families with closed-form solutions (time-modulated linear systems via "
-              "matrix_exp incl. tuple states, forced linear, separable time-dependent, logistic) x 13 forward/backward method "
-              "configurations x {explicit, nn.Module, EditableModule, mixed} parameters x subsets of {y0, theta, ts} requiring grad x "
-              "5 cotangent patterns x increasing/decreasing, uniform/ragged grids x first order (both backward code paths) and second order; "
-              "every gradient incl. d/dts[0] compared with autograd of the closed form from the same leaves; unused tensors must get None/0.")
-LEVEL_NOTE = ("Relative tolerance 1e-6 (first order) / 1e-5 (second order) for adaptive integrators at 1e-10/1e-9; fixed-step methods are "
-              "decided on a twice-refined grid (order-of-convergence test + tolerance on the finest grid); trusts torch.linalg.matrix_exp "
-              "and its autograd formulas.")
+LEVEL_TEXT = ("Held on every generated case of the run: 5 ODE families with closed-form solutions (time-modulated linear systems via "
+              "matrix_exp incl. tuple/list states, forced linear, separable time-dependent, logistic, right-hand side independent of y) x "
+              "13 forward/backward method configurations (+4 with a deliberately inaccurate forward and a tight backward) x {explicit, "
+              "nn.Module, EditableModule, mixed, one tensor supplied twice} parameters x subsets of {y0, theta, ts} requiring grad (leaf and "
+              "non-leaf) x 5 cotangent patterns x increasing/decreasing, uniform/ragged grids x first order (both backward code paths) and "
+              "second order; every gradient incl. d/dts[0] compared with autograd of the closed form from the same leaves; unused tensors "
+              "must get None/0.")
+LEVEL_NOTE = ("Relative tolerance 1e-6 / 1e-5 (first / second order; 10x looser with rk23) for adaptive integrators at 1e-10 / 1e-9; "
+              "fixed-step methods are decided on a twice-refined grid (order-of-convergence test + 1e-4 on the finest grid; Euler by the "
+              "order test alone); trusts torch.linalg.matrix_exp and its autograd formulas.")
 RULE = ("seeded sampling over family x method configuration x parameter mode x requires-grad subset x cotangent pattern x direction x grid "
-        "x order; non-trivial = non-zero cotangent, >= 1 leaf with a non-zero reference gradient, the right-hand side was evaluated "
-        "during the backward pass (spy count) and the gradients were compared leaf by leaf")
-MIN_NONTRIVIAL = {"quick": 200, "thorough": 2000}
+        "x order, plus directed classes (graph-recording backward w.r.t. ts for every adaptive configuration; one tensor supplied in two "
+        "places; linear systems with inaccurate forward and tight backward); non-trivial = non-zero cotangent, >= 1 leaf with a non-zero "
+        "reference gradient, the right-hand side was evaluated during the backward pass (spy count) and the gradients were compared "
+        "leaf by leaf")
+MIN_NONTRIVIAL = {"quick": 500, "thorough": 5000}
 ASSUMPTIONS = [
-    "float64 only; state size <= 6, <= 9 requested times for adaptive methods, time span 0.3..1.5, |t0| <= 1",
+    "float64 only; state size <= 6, <= 9 requested times for adaptive methods, time span 0.3..1.5, |t0| <= 1, strictly monotone grids "
+    "(smallest/largest spacing >= 0.03 for adaptive, >= 1/3 for fixed-step methods)",
     "linear systems: A = -0.3 I + 0.7 N(0,1)/sqrt(n), scale 0.5..1.2, modulation 1 + b cos(w t) with b in 0.3..0.8, w in 1..3",
     "logistic: y0/K in 0.2..0.9 (no blow-up in either time direction)",
-    "adaptive integrators are run with atol=rtol=1e-10 (rk45) or 1e-9 (rk23); comparison tolerance 1e-6 / 1e-5 relative to the largest "
-    "reference gradient of the leaf kind (floored at 1e-2 of the largest over all leaves)",
-    "fixed-step methods: base grids of 9..17 points with spacing ratio <= 3, refined twice by midpoints; Euler: 33-point base grids",
-    "bck_options are honoured is decided numerically on linear systems only (dL/dy0 there depends on the backward integrator alone)",
+    "adaptive integrators are run with atol=rtol=1e-10 (rk45) or 1e-9 (rk23); comparison tolerance 1e-6 / 1e-5 (rk23: 1e-5 / 1e-4) "
+    "relative to the largest reference gradient of the leaf kind, floored at 1e-2 * max(largest reference gradient of any leaf, "
+    "largest cotangent entry)",
+    "fixed-step methods: base grids of 9..17 points (Euler 33) with spacing ratio <= 3, refined twice by midpoints; required error "
+    "reduction per halving 0.35 (order 4) / 0.80 (Euler) unless the error is already below 1e-8",
+    "'bck_options are honoured' is decided numerically on linear systems only (dL/dy0 there depends on the backward integrator alone)",
+    "aliasing: one tensor supplied twice in params, or as an object's parameter and in params; two attributes of one object sharing "
+    "a tensor are not generated here (C09/C10)",
+    "removing the re-seeding of y with the stored forward values changes the gradients by less than the integrators' accuracy and "
+    "is therefore not detectable (nor required) by this property",
 ]
 BUDGET = {"quick": {"worker_timeout": 900, "case_timeout": 200}, "thorough": {"worker_timeout": 3300, "case_timeout": 400}}
 SHARDS_PER_JOB = 4
@@ -184,7 +195,7 @@ def cases(seed, tier):
         rng = random.Random(sub_seed(seed, "c08b", i))
         d = _common(rng, {"group": "bcklin", "seed": sub_seed(seed, "c08bs", i)})
         d.update(family="linsys", conf=names[i % len(names)], nt=rng.choice([3, 4, 6]), order=1, cg=i // len(names) % 2, rg_y0=True,
-                 tuple=rng.random() < 0.4)
+                 tuple=rng.random() < 0.4, cot=rng.choice(["dense", "last", "two"]))
         out.append(d)
     return out
 
